@@ -4,6 +4,11 @@
 #![allow(clippy::all)]
 mod util;
 mod c12;
+mod c16;
+mod track;
+
+#[global_allocator]
+static ALLOC: track::Tracking = track::Tracking;
 
 fn main() {
     let args: Vec<String> = std::env::args().skip(1).collect();
@@ -15,6 +20,8 @@ fn main() {
     let rc = match args[0].as_str() {
         "c12-replay" => c12::replay(rest),
         "c12-record" => c12::record(rest),
+        "c16-utf8" => c16::utf8(rest),
+        "c16-views" => c16::views(rest),
         other => {
             eprintln!("unknown subcommand {other}");
             2
